@@ -16,7 +16,9 @@
    2. LEMMAS evaluated once (in the Pick state): backfill as coded = BackfillRef on every
       offsets array of length 2..4; IsActionSorted (first principles: last sort before the
       phase sorts by the key the phase selects on, and nobody writes that key in between)
-      = the formula coded in ActionInterface.hh; Schedule / SortPhase consistency.
+      = the formula coded in ActionInterface.hh; Schedule / SortPhase consistency;
+      InvMutantsRefuted: each wrong variant of the count differs from the contract on some
+      sorted key sequence of <= 3 threads (vacuity guard inside the main run).
    3. MUTANTS (vacuity guard; each cfg MUST be refuted):
         nofirst   the count forgets thread 0                      -> InvOffsets
         left      backfill runs from the left                     -> InvBackfill / InvOffsets
